@@ -212,6 +212,13 @@ def c05(rng, tier, repo):
             if st != want:
                 viol.append({'what': 'C05 verify -s with signed=%s status %s exit %d: exit status %r, expected %r' % (signed, status, ex, st, want),
                              'key': 'require-signed:%s%s%d' % (signed, status, ex), 'props': ['C05']})
+            # without OpenPGP verification nothing is ever accepted, so -s cannot be satisfied
+            for flags in (['-s', '-P'], ['-P', '--require-signed-manifest'], ['-s', '--no-openpgp-verify', '-k']):
+                st = C.run_cli(['verify'] + flags + [t])
+                n += 1
+                if st in (0, None):
+                    viol.append({'what': 'C05 verify %s (signed=%s): exit status %r although no signature was accepted' % (' '.join(flags), signed, st),
+                                 'key': 'require-signed:no-verify', 'props': ['C05']})
     return viol, n, distinct, samples
 
 
